@@ -16,7 +16,22 @@ import (
 
 // Float draws a finite float64 that is exactly representable as float32 (so
 // that float32 codecs round-trip it) with varied textual length.
+// Wild, when set, lets Float produce NaN and infinities now and then (valid
+// float64 values a mesh attribute may hold, e.g. normals of a zero-area
+// triangle). Set by scenarios whose oracle compares bit patterns.
+var Wild bool
+
 func Float(c choice.Chooser, label string) float64 {
+	if Wild {
+		switch c.Intn(label+":wild", 60) {
+		case 57:
+			return math.NaN()
+		case 58:
+			return math.Inf(1)
+		case 59:
+			return math.Inf(-1)
+		}
+	}
 	switch c.Intn(label+":k", 6) {
 	case 0:
 		return float64(c.Intn(label, 5))
